@@ -4,6 +4,9 @@ import json
 E2="bounded exhaustive input enumeration against a reference model (small-scope model checking of the implementation)"
 E1="exhaustive schedule exploration of the implementation (stateless DFS with state caching under a controlled cooperative scheduler)"
 CHECKS = {
+ "C19": dict(engine="E4", category="fault_enumeration", technique="exhaustive crash-point enumeration: every prefix and torn write of the strace-logged syscall history of the real binary replayed on a directory model; positional fault injection on the real binary",
+   text="For each scenario (verb x format x file list incl. subdirectory and empty files x gzip/zlib x mode) the real `mlr -I` is run under strace; the logged history of open/write/close/rename/chmod/unlink calls is replayed on an in-memory directory model at EVERY prefix and at byte truncations of every write; on each crash state every named file must hold its original bytes or the complete final bytes (which must decode to what the same command without -I prints for that file alone), transformed files form a prefix of the list, at most one temp file exists. The model is validated per scenario: full replay == real final directory, byte for byte and mode for mode. Positional faults (DSL errors per file/record, ragged CSV, EFBIG at every offset step via prlimit, failing rename via strace injection, unwritable directory under setpriv, refusals) must exit non-zero with a diagnostic, leave failing and later files byte-identical, earlier files committed, and no temp file on the normal error path.",
+   note="Crash model = process stop with the kernel surviving (prefix of the syscall history); power-loss reordering is outside the claim. Trusted: strace's log, the 150-line directory model (validated against the real outcome on every scenario)."),
  "C17": dict(engine="E1xE4", category="fault_enumeration", technique="exhaustive fault-position enumeration crossed with exhaustive schedule exploration of the implementation (controlled scheduler, DFS with state caching) + real-binary exit-status layer",
    text="Every fault configuration (fault kind x record/byte/write/file position x verb chain incl. failing verb in each chain position x --records-per-batch) is executed on the real pipeline under the cooperative scheduler over ALL goroutine schedules. Per execution: termination (no deadlock, no horizon overrun, no spin); whenever the fault is certainly reached every schedule must fail (non-nil error from Stream or trapped non-zero exit) with a diagnostic. Faults: malformed CSV/JSON rows, CSV-output schema change, DSL run-time failures (returned and os.Exit kinds, main and end blocks), per-file writer errors of tee/emit/split targets, unwritable redirect targets, stdout write failure at the n-th write, read error after k bytes for 12 readers, missing file at list position i. A real-binary layer (40 commands: /dev/full, directories, unreadable files under setpriv, corrupt gzip ...) pins exit status and diagnostic.",
    note="A fault behind an early-exit verb may legitimately never be reached (termination only). Reads/writes are positional answers of controlled readers/writers. Real-binary hangs decided by a 30 s deadline re-run 3x. Trusted: tools/vinstr rewrite, rt/verifrt."),
